@@ -105,6 +105,8 @@ RULES = [
 
 def run(chk):
     chk.level = "proof"
+    from props import backend_conformance
+    backend_conformance.run(chk, "C10", names=('eig', 'eigh', 'argsort', 'sort', 'abs'))
     chk.trust("vcgen/idx.py: NumPy indexing primitives as index transformers, slice.indices contract")
     chk.trust("dependency contracts: xnp.eig(M) = (w, V) with M V = V diag(w), V invertible, w in unspecified order; xnp.eigh(M) the same with w real "
               "ascending and V unitary; xnp.argsort a sorting bijection (real: by value, complex: by an uninterpreted total order)")
